@@ -77,3 +77,64 @@ class RefLexer:
             if t is None:
                 return out
             out.append(t)
+
+
+class SkipLexer(RefLexer):
+    """The advance-only lexer plus the one recorded deviation of the real lexer (finding C05-filter-change-after-eager-skip):
+    whenever the real lexer stands at a parse start (nothing delivered since the start or the last sub-lex mark) and looks
+    ahead, it moves its cursor over the filtered tokens in front of the next deliverable one; a later filter change cannot
+    bring them back. `i` is the advance-only index (just behind the last delivered token), `ci >= i` the real cursor; a token
+    in [i, ci) that the current filter keeps is LOST, and `met[0]` is set when a delivery or look-ahead passes over one.
+    Follows lexer.rs buffer_next / next_nonfiltered / peek / set_filter / start_sublex literally."""
+    def __init__(self, toks, flt=None, met=None):
+        RefLexer.__init__(self, toks, 0, flt)
+        self.ci, self.behind, self.buf = 0, True, None
+        self.met = met if met is not None else [False]
+    def clone(self):
+        c = SkipLexer(self.toks, self.flt, self.met)
+        c.i, c.ci, c.behind, c.buf = self.i, self.ci, self.behind, self.buf
+        return c
+    def _kept(self, j):
+        return keeps(self.flt, self.toks[j]['kind'])
+    def _note_lost(self, upto):
+        if any(self._kept(k) for k in range(self.i, min(upto, self.ci))):
+            self.met[0] = True
+    def buffer_next(self):
+        if self.buf is not None:
+            return
+        behind = self.behind
+        j = self.ci
+        while j < len(self.toks):
+            if not self._kept(j):
+                j += 1
+                if behind:
+                    self.ci = j                  # the eager skip
+            else:
+                self.buf = j
+                break
+    def first(self):
+        j = self.buf if self.buf is not None else self.ci
+        while j < len(self.toks) and not self._kept(j):
+            j += 1
+        return j if j < len(self.toks) else None
+    def peek(self):
+        self.buffer_next()
+        j = self.first()
+        self._note_lost(j if j is not None else len(self.toks))
+        return None if j is None else self.toks[j]
+    def next(self):
+        j = self.first()
+        self._note_lost(j if j is not None else len(self.toks))
+        self.buf = None
+        if j is None:
+            self.ci = len(self.toks); self.i = len(self.toks)
+            return None
+        self.ci = j + 1; self.i = j + 1; self.behind = False
+        return self.toks[j]
+    def sublex(self):
+        self.behind = True
+        self.buffer_next()
+    def set_filter(self, flt):
+        self.flt = flt
+        self.buf = None
+        self.buffer_next()
